@@ -70,6 +70,16 @@ func (e *Engine) subIndex(key string) int {
 
 // ownsLocal: may code running in an activation of fn (or a closure nested in it) name this frame-local key?
 // Locals of other functions' activations (including recursive instances reached through calls) are never ours.
+// iterKey: the frame-local ghost counter of a range-over-map iterator.
+func (e *Engine) iterKey(rg *ssa.Range) string {
+	k := fmt.Sprintf("Local.%s.#iter.%s", e.shortName(rg.Parent()), rg.Name())
+	if e.localOwner == nil {
+		e.localOwner = map[string]*ssa.Function{}
+	}
+	e.localOwner[k] = rg.Parent()
+	return k
+}
+
 func (e *Engine) ownsLocal(fn *ssa.Function, key string) bool {
 	owner := e.localOwner[key]
 	for f := fn; f != nil; f = f.Parent() {
@@ -526,6 +536,13 @@ func (e *Engine) instrMods(in ssa.Instruction, mi *modInfo) {
 				continue
 			}
 			mi.keys[k] = s
+		}
+	case *ssa.Next:
+		if rg, ok := x.Iter.(*ssa.Range); ok && !x.IsString && isMap(rg.X.Type()) {
+			if mi.own == nil {
+				mi.own = map[string]Sort{}
+			}
+			mi.own[e.iterKey(rg)] = SInt
 		}
 	case *ssa.MapUpdate:
 		mapModKeys(x.Map.Type().Underlying().(*types.Map), mi.keys)
